@@ -341,6 +341,51 @@ pub fn c08(thorough: bool, replay: Option<String>) -> i32 {
     let (st, capped) = par_range(n, 1, None, || (), |_, st, i| check_roundtrip(st, &cases[i as usize], true));
     rep.add_sub("roundtrip/length-classes", &format!("atoms of lengths {:x?} (position-dependent fill) alone, as left child, as right child, inside a list, paired with itself; truncations near both ends", lens), n, true, capped, st);
 
+    // (a3) deep shapes: right / left spines and zig-zags of every depth 1..64 and at 100, 300, 1000, 5000, with
+    // leaves cycling through short atoms and atoms that need a 2-byte length prefix (the decoder's operation stack
+    // and the stream cursor after multi-byte prefixes, back to back)
+    {
+        let leafs: Vec<T> = vec![T::nil(), T::a(&[0]), T::a(&[0x80]), T::A(pattern_atom(0x40)), T::a(b"ab"), T::A(pattern_atom(0x3f)), T::A(pattern_atom(0x41))];
+        let mut depths: Vec<usize> = (1..=64).collect();
+        depths.extend([100, 300, 1000, 5000]);
+        let mut shapes: Vec<T> = vec![];
+        for d in &depths {
+            for kind in 0..3 {
+                let mut t = leafs[d % leafs.len()].clone();
+                for i in 0..*d {
+                    let l = leafs[(i + kind) % leafs.len()].clone();
+                    t = match kind {
+                        0 => T::p(l, t),
+                        1 => T::p(t, l),
+                        _ => {
+                            if i % 2 == 0 {
+                                T::p(l, t)
+                            } else {
+                                T::p(t, l)
+                            }
+                        }
+                    };
+                }
+                shapes.push(t);
+            }
+        }
+        let n = shapes.len() as u64;
+        let shapes = std::sync::Arc::new(shapes);
+        let sh = shapes.clone();
+        let (st, capped) = par_range(n, 2, None, || (), move |_, st, i| {
+            let t = sh[i as usize].clone();
+            let mut local = Stats::new();
+            // truncations at every offset only for the shallower shapes (quadratic otherwise)
+            let trunc = t.bytes().len() < 600;
+            let r = crate::par::with_big_stack(move || {
+                check_roundtrip(&mut local, &t, trunc);
+                local
+            });
+            st.merge(r);
+        });
+        rep.add_sub("roundtrip/deep-shapes", &format!("{} right / left spines and zig-zags of depth 1..64, 100, 300, 1000, 5000 whose leaves cycle through nil, 1-byte atoms and atoms of 0x3f / 0x40 / 0x41 bytes; truncations at every offset for encodings under 600 bytes", shapes.len()), n, true, capped, st);
+    }
+
     // (c) single bit flips in the prefix bytes of valid encodings of the length-class atoms
     let mut flips: Vec<Vec<u8>> = vec![];
     for &l in lens.iter().filter(|l| **l <= 0x100001) {
